@@ -248,9 +248,10 @@ class Run:
         self.cov["distinct_nontrivial"] = len(self._distinct)
 
     def violation(self, what, replay_obj):
-        os.makedirs(os.path.join(VERIF, "replays"), exist_ok=True)
+        rdir = os.path.join(VERIF, "replays") if not os.environ.get("VERIF_NOEVIDENCE") else os.path.join("/var/tmp", "verif-selftest-replays")
+        os.makedirs(rdir, exist_ok=True)
         n = len(self.violations)
-        path = os.path.join(VERIF, "replays", "%s-%s-%d.json" % (self.prop, self.seed, n))
+        path = os.path.join(rdir, "%s-%s-%d.json" % (self.prop, self.seed, n))
         with open(path, "w") as fh:
             json.dump(replay_obj, fh, indent=1)
         self.violations.append({"what": what, "replay": path})
@@ -351,9 +352,10 @@ class Run:
             "wall_s": round(time.time() - self.t0, 2), "violations": len(self.violations),
             "known_findings": self.known,
         }
-        os.makedirs(os.path.join(VERIF, "evidence"), exist_ok=True)
-        with open(os.path.join(VERIF, "evidence", "%s.json" % self.prop), "w") as fh:
-            json.dump(ev, fh, indent=1)
+        if not os.environ.get("VERIF_NOEVIDENCE"):
+            os.makedirs(os.path.join(VERIF, "evidence"), exist_ok=True)
+            with open(os.path.join(VERIF, "evidence", "%s.json" % self.prop), "w") as fh:
+                json.dump(ev, fh, indent=1)
         shutil.rmtree(self.tmp, ignore_errors=True)
         log("%s %s seed=%s: %d violations, %d known findings, %.1fs" % (self.prop, self.tier, self.seed, len(self.violations), len(self.known), time.time() - self.t0))
         return 1 if self.violations else 0
